@@ -614,6 +614,9 @@ JudgeFile(tr, T, ev) ==
        \* the harness' split at CRLF, and (for files of moderate size) the specification's own splitter
        /\ ev.file.lines = lines
        /\ (Len(ev.file.bytes) <= 4000 => SplitCRLF(ev.file.bytes, 1, <<>>) = lines)),
+    \* C01: what the robot executes is the file; read as the 8-bit text the format prescribes it holds the very records the
+    \* replay clauses were evaluated on
+    Cl("C01.file", ev.op \in {"save", "exit"} /\ a.ext = "gwl" /\ a.haspath /\ ev.out = "ok" /\ lines # <<>>, ev.file.lines = lines),
     Cl("C17.noext", ev.op = "save" /\ a.ext = "none", ev.out # "ok" /\ ~ev.file.exists),
     Cl("C17.nopath", ev.op = "exit" /\ ~a.haspath, ev.out = "ok" /\ ~ev.file.exists),
     Cl("C17.enter", ev.op = "enter", ev.out = "ok" /\ ev.wlen = 0),
